@@ -483,20 +483,21 @@ def r4(run: Run, src):
 
 
 def run(run: Run):
+    from .common import cached_guard as _cached_guard
     src = get_source()
     rt = get_runtime(src)
     run.rule('C18.R1', 'reader roles: enumeration index = coordinate, one entry per cell/row, size keys, get_cells')
     run.rule('C18.R2', 'index-aligned lists share one loop; accumulators are initialised at the right level')
     run.rule('C18.R3', 'constants survive repr(); array formulas stored as text')
     run.rule('C18.R4', 'formula test: str starting with "="')
-    run.guard('C18.R1', reader_rule, run, 'C18.R1', src, ('data', 'sizes'), r1, (src,))
-    run.guard('C18.R2', reader_rule, run, 'C18.R2', src, ('titles', 'sizes'), r2, (src,))
-    run.guard('C18.R3', r3, run, src, rt)
-    run.guard('C18.R4', r4, run, src)
+    _cached_guard(run, 'C18.R1', r1_any, src)
+    _cached_guard(run, 'C18.R2', r2_any, src)
+    _cached_guard(run, 'C18.R3', r3, src, rt)
+    _cached_guard(run, 'C18.R4', r4, src)
     from .common import check_per_instance_state
     from . import c02
     run.rule('C18.R5', 'titles and sizes reported by an instance are its own (no class-level mutable state handed out or changed)')
-    run.guard('C18.R5', check_per_instance_state, run, 'C18.R5', rt)
+    _cached_guard(run, 'C18.R5', check_per_instance_state, 'C18.R5', rt)
     run.floor('C18.R5', 6)
     from . import c08
     from ..callgraph import get_callgraph
